@@ -376,7 +376,86 @@ def build() -> Check:
     ck.ob("R11.adjacent-surrogates-survive", fn_construct(ser_fn), handles,
           "strings are written with json.dumps(ensure_ascii=True) and read with json.loads and nothing looks at surrogates: the two-character string '\\ud83d\\ude00' is accepted "
           "and comes back as the one-character string '\\U0001f600' (two distinct dict keys collapse into one)")
+    _round_h2_rules(ck, sd)
     return ck
+
+
+def _round_h2_rules(ck, sd):
+    """Three rules added after review round h2 (h2_C15 #1..#3)."""
+    # R12 "to any nesting depth": encoder and decoder recurse once per nesting level; whatever the encoder accepts the decoder must be able to reach.
+    # Python frames per level = functions on the recursion cycle + one per GENERATOR EXPRESSION that encloses the recursive call (list / dict / set
+    # comprehensions are inlined by CPython 3.12, a generator is a frame of its own). A decoder that costs more frames per level than the encoder
+    # accepts values it cannot read back (tuples nested ~250..330 deep: checkpointed, then 'Deserialization failed' on every replay).
+    cc = sd.classes.get("ContainerCodec")
+    if cc is None or "encode" not in cc.methods or "decode" not in cc.methods:
+        raise AnalysisError("ContainerCodec.encode/decode not found")
+
+    def frames_per_level(root: str, helper_prefix: str):
+        """(functions on the cycle root -> helper -> dispatcher.<root> -> root, generator expressions around the recursive call)"""
+        fn = cc.methods[root]
+        helpers = {n.func.attr for n in ast.walk(fn.node) if isinstance(n, ast.Call) and isinstance(n.func, ast.Attribute)
+                   and isinstance(n.func.value, ast.Name) and n.func.value.id == "self" and n.func.attr in cc.methods and n.func.attr != root}
+        rec_helpers = [h for h in helpers if any(isinstance(n, ast.Call) and isinstance(n.func, ast.Attribute) and n.func.attr == root
+                                                 for n in ast.walk(cc.methods[h].node))]
+        if not rec_helpers:
+            raise AnalysisError(f"ContainerCodec.{root}: recursion through a helper method not understood")
+        gens = []
+        for g in ast.walk(fn.node):
+            if isinstance(g, ast.GeneratorExp) and any(isinstance(n, ast.Call) and isinstance(n.func, ast.Attribute) and n.func.attr in rec_helpers for n in ast.walk(g)):
+                gens.append(g.lineno)
+        for h in rec_helpers:
+            for g in ast.walk(cc.methods[h].node):
+                if isinstance(g, ast.GeneratorExp) and any(isinstance(n, ast.Call) and isinstance(n.func, ast.Attribute) and n.func.attr == root for n in ast.walk(g)):
+                    gens.append(g.lineno)
+        return 3, gens   # container.<root> -> helper -> dispatcher.<root> -> container.<root>
+
+    ef, eg = frames_per_level("encode", "_wrap")
+    df, dg = frames_per_level("decode", "_unwrap")
+    ck.analysed["frames_per_nesting_level"] = {"encode": ef + len(eg), "decode": df + len(dg)}
+    ck.ob("R12.decoder-reaches-every-depth-the-encoder-accepts", "serdes.py:ContainerCodec.decode", df + len(dg) <= ef + len(eg),
+          f"decoding costs {df + len(dg)} Python frames per nesting level (generator expression around the recursive call at line {dg[0] if dg else '?'}), encoding "
+          f"{ef + len(eg)}: containers nested deeper than recursion-limit/{df + len(dg)} but not deeper than recursion-limit/{ef + len(eg)} are serialized and "
+          "checkpointed, and every replay fails with 'Deserialization failed' (RecursionError)")
+
+    # R13 the dispatcher hands the VALUE to the codec that was selected for its type; an arm that converts it first (`bytes(obj)`) selects by a set of
+    # types but records only one: the others are accepted and come back as that one ("rejected rather than silently altered")
+    tcod = sd.classes.get("TypeCodec")
+    if tcod is None or "encode" not in tcod.methods:
+        raise AnalysisError("TypeCodec.encode not found")
+    enc = tcod.methods["encode"]
+    subj = [a.arg for a in enc.node.args.args][-1]
+    n_arms = 0
+    for case in [c for m in ast.walk(enc.node) if isinstance(m, ast.Match) for c in m.cases]:
+        pats = case.pattern.patterns if isinstance(case.pattern, ast.MatchOr) else [case.pattern]
+        classes = [ast.unparse(p.cls) for p in pats if isinstance(p, ast.MatchClass)]
+        if not classes:
+            continue
+        n_arms += 1
+        conv = []
+        for n in ast.walk(ast.Module(body=case.body, type_ignores=[])):
+            if isinstance(n, ast.Call) and isinstance(n.func, ast.Attribute) and n.func.attr == "encode":
+                for a in n.args:
+                    if isinstance(a, ast.Call) and isinstance(a.func, ast.Name) and any(isinstance(x, ast.Name) and x.id == subj for x in ast.walk(a)):
+                        conv.append(a.func.id)
+        altered = sorted(set(classes) - set(conv)) if conv else []
+        ck.ob("R13.no-coercion-before-encode", fn_construct(enc), not altered,
+              f"`case {' | '.join(c + '()' for c in classes)}` encodes `{conv[0] if conv else ''}(obj)`: {altered} are accepted and come back as {conv[0] if conv else '?'} - "
+              "a step returning a bytearray gets bytes on replay (`.extend` -> AttributeError), a memoryview over a typed array is not even equal",
+              cell="|".join(classes))
+    ck.floor("dispatcher_arms", n_arms, 5)
+
+    # R14 an aware datetime is written with isoformat(): only the numeric UTC offset of its tzinfo survives, fromisoformat() rebuilds a fixed-offset
+    # timezone. A zone with rules (ZoneInfo, any tzinfo with DST) comes back as a different object that is unequal in the repeated hour and gives other
+    # results under wall-clock arithmetic. Necessary condition for either remedy (reject, or record the zone): the encoder looks at .tzinfo
+    dtc = sd.classes.get("DateTimeCodec")
+    if dtc is None or "encode" not in dtc.methods:
+        raise AnalysisError("DateTimeCodec.encode not found")
+    e2 = dtc.methods["encode"]
+    writes_iso = any(isinstance(n, ast.Call) and isinstance(n.func, ast.Attribute) and n.func.attr == "isoformat" for n in ast.walk(e2.node))
+    looks_tz = any(isinstance(n, ast.Attribute) and n.attr in ("tzinfo", "utcoffset", "tzname", "key") for n in ast.walk(e2.node))
+    ck.ob("R14.zone-of-aware-datetime-kept-or-rejected", fn_construct(e2), not writes_iso or looks_tz,
+          "aware datetimes are written with isoformat() and the encoder never looks at tzinfo: a datetime in ZoneInfo('America/New_York') is accepted and comes back "
+          "with tzinfo=timezone(-5h) - unequal to the original in the repeated hour at the end of DST, and `restored + timedelta(days=180)` is a different instant")
 
 
 if __name__ == "__main__":
